@@ -385,12 +385,14 @@ impl ZXMixer {
     pub uninterp spec fn calls(&self) -> Seq<MixCall>;
     #[verifier::external_body]
     pub fn process(&mut self, current_time: f64)
-        ensures final(self).beeper == old(self).beeper, final(self).ay == old(self).ay,
+        // (generating samples advances the AY generator's internal counters: only the port-visible
+        // register file and the log of register writes are kept)
+        ensures final(self).beeper == old(self).beeper, final(self).ay.same_port_state(&old(self).ay),
             final(self).calls() == old(self).calls().push(MixCall::Process),
     { unimplemented!() }
     #[verifier::external_body]
     pub fn new_frame(&mut self)
-        ensures final(self).beeper == old(self).beeper, final(self).ay == old(self).ay,
+        ensures final(self).beeper == old(self).beeper, final(self).ay.same_port_state(&old(self).ay),
             final(self).calls() == old(self).calls().push(MixCall::NewFrame),
     { unimplemented!() }
 }
@@ -418,6 +420,10 @@ impl ZXBeeper {
 
 impl ZXAyChip {
     pub open spec fn wf(&self) -> bool { self.current_reg < 16 }
+    /// everything the CPU can observe through the ports, plus the log of writes that reached the generator
+    pub open spec fn same_port_state(&self, o: &Self) -> bool {
+        self.regs == o.regs && self.current_reg == o.current_reg && self.ay.writes() == o.ay.writes()
+    }
 //@ fn rustzx-core/src/zx/sound/ay.rs impl ZXAyChip::select_reg props C07 C18
 //@ sig
         ensures final(self).wf(), final(self).current_reg == (reg & 0x0F) as usize, reg as int % 16 == (reg & 0x0F) as int,
@@ -583,7 +589,7 @@ impl<H: Host> ZXController<H> {
         &&& self.io_extender == o.io_extender
         &&& self.debug_interface == o.debug_interface
         &&& self.mixer.beeper == o.mixer.beeper
-        &&& self.mixer.ay == o.mixer.ay
+        &&& self.mixer.ay.same_port_state(&o.mixer.ay)
         &&& self.keyboard == o.keyboard
         &&& self.keyboard_extended == o.keyboard_extended
         &&& self.keyboard_sinclair == o.keyboard_sinclair
@@ -983,7 +989,7 @@ impl<H: Host> ZXController<H> {
     /// device state unchanged, selectively: ULA outputs / AY / paging+memory / extender
     pub open spec fn dev_same(&self, o: &Self, ula: bool, ay: bool, paging: bool, ext: bool) -> bool {
         &&& ula ==> self.border_color == o.border_color && self.mixer.beeper == o.mixer.beeper
-        &&& ay ==> self.mixer.ay == o.mixer.ay
+        &&& ay ==> self.mixer.ay.same_port_state(&o.mixer.ay)
         &&& paging ==> self.memory == o.memory && self.current_port_7ffd == o.current_port_7ffd
                 && self.paging_enabled == o.paging_enabled && self.screen_bank == o.screen_bank
         &&& ext ==> true
